@@ -32,9 +32,38 @@ def doCtor (s : St) (fmt : Option (List Char)) : St × String :=
     | .error e => (s, "err " ++ e.name)
   | _, _ => (s, noTable)
 
+def showOptCps : Option (List Char) → String
+  | some s => "some:" ++ showCps s
+  | none => "none"
+
+def showPCol (p : PCol) : String :=
+  "(" ++ showCps p.fieldName ++ " " ++ showOptCps p.modifier ++ " " ++ (if p.breakBy then "1" else "0") ++ " "
+    ++ showOptCps p.valuePath ++ " " ++ (match p.width with
+      | .unspec => "None None"
+      | .hidden => "-1 -1"
+      | .range a b => toString a ++ " " ++ toString b) ++ ")"
+
+def showOptInt : Option Int → String
+  | some i => toString i
+  | none => "None"
+
+/-- what `_PPTableParsedFmt(fmt)` holds (diagnostic line) -/
+def showPFmt (p : PFmt) : String :=
+  (match p.cols with
+    | .keep => "keep"
+    | .all => "all"
+    | .explicit cs => "cols " ++ " ".intercalate (cs.map showPCol))
+  ++ " ; " ++ (match p.vis with
+    | none => "None"
+    | some (a, b) => showOptInt a ++ ":" ++ showOptInt b)
+
 def handle (s : St) (line : String) : St × String :=
   match splitWs line with
   | ["reset"] => ({}, "ok")
+  | ["parse", f] =>
+    match parseCps f with
+    | some cs => (s, showExcept showPFmt (parseFmt cs))
+    | none => (s, "bad-op")
   | "new" :: spec =>
     match Wire.parseSpec spec with
     | some a =>
